@@ -285,6 +285,63 @@ def _is_name_of(f, nid: int, k: ast.AST, s_: str) -> bool:
     return True
 
 
+def _template_evaluate_params(R) -> Set[str]:
+    """Parameter names of `_evaluate` in the model template(s) (those common to all of them)."""
+    import re as _re
+    fd = folder(R.repo, P)
+    out = None
+    for nm in ('MODEL_TEMPLATE_TYPED', 'MODEL_TEMPLATE_UNTYPED', 'MODEL_TEMPLATE'):
+        try:
+            t = fd.get(nm)
+        except Exception:
+            continue
+        if not isinstance(t, str):
+            continue
+        for m in _re.finditer(r'def _evaluate\((.*?)\)\s*(?:->.*?)?:', t, _re.S):
+            try:
+                fn = ast.parse(f'def f({m.group(1)}): pass').body[0]
+            except SyntaxError:
+                continue
+            a = fn.args
+            names = {x.arg for x in a.posonlyargs + a.args + a.kwonlyargs} | ({a.kwarg.arg} if a.kwarg else set()) | ({a.vararg.arg} if a.vararg else set())
+            out = names if out is None else (out & names)
+    if not out:
+        raise Unknown('the parameters of `_evaluate` in the model template were not read')
+    return out
+
+
+def _as_method_body(a0: Optional[ast.AST]):
+    """`'def f(<params>):\\n<statements>' + textwrap.indent(<code>, <spaces>)` -> (parameter names, <code>), else None."""
+    if not (isinstance(a0, ast.BinOp) and isinstance(a0.op, ast.Add)):
+        return None
+    parts = []
+    x = a0
+    while isinstance(x, ast.BinOp) and isinstance(x.op, ast.Add):
+        parts.insert(0, x.right)
+        x = x.left
+    parts.insert(0, x)
+    head = ''
+    i = 0
+    while i < len(parts) and isinstance(parts[i], ast.Constant) and isinstance(parts[i].value, str):
+        head += parts[i].value
+        i += 1
+    rest = parts[i:]
+    if not head.lstrip().startswith('def ') or len(rest) != 1:
+        return None
+    r = rest[0]
+    if not (is_call(r, 'textwrap.indent', 'indent') and len(r.args) >= 2):
+        return None
+    try:
+        fn = ast.parse(head + '    pass\n').body[0]
+    except SyntaxError:
+        return None
+    if not isinstance(fn, ast.FunctionDef):
+        return None
+    a = fn.args
+    names = {y.arg for y in a.posonlyargs + a.args + a.kwonlyargs} | ({a.kwarg.arg} if a.kwarg else set()) | ({a.vararg.arg} if a.vararg else set())
+    return names, r.args[0]
+
+
 def _index_type_fallthrough(R, site) -> bool:
     """The raise is what is left, in a method of Term, after isinstance tests of the term's own index have all failed (wherever
     in the class that rendering now lives)."""
@@ -1222,6 +1279,30 @@ def r5b_statement_kind(R) -> None:
             'the failing branch of the statement-kind test neither records a problem nor raises', where=f.where(t))
     # what is checked is what will be built: the compiled text is the symbol's code itself
     comp = [x for x in ast.walk(f.fi.node) if is_call(x, 'compile') and 'PyCF_ONLY_AST' not in text(x)]
+    # ... and it is compiled a second time as it is going to run: indented into the body of a method with the parameters of the
+    # template's `_evaluate` (where `from x import *`, `global t`, a `__future__` import are errors that the first compile accepts)
+    want_params = _template_evaluate_params(R)
+    body_forms = []
+    for c in list(comp):
+        got = _as_method_body(c.args[0] if c.args else None)
+        if got is None:
+            continue
+        params, code_arg = got
+        comp.remove(c)
+        node = [m for m in f.cfg.nodes if m.ast is not None and any(y is c for y in ast.walk(m.ast))]
+        code_ok = isinstance(code_arg, ast.Attribute) and code_arg.attr == 'code'
+        if isinstance(code_arg, ast.Name) and node:
+            vals = f.lf.values_reaching(node[0].id, code_arg.id)
+            code_ok = bool(vals) and all(dv is not None and isinstance(dv, ast.Attribute) and dv.attr == 'code' for (_s, dv) in vals)
+        R.check(code_ok and want_params <= params, q, 'checked-as-method-body:' + text(c)[:40],
+                'the code is also compiled as the body of a method with the parameters of the generated `_evaluate`',
+                f'`{text(c)[:70]}` compiles the code inside a function, but not the code itself inside a function with the parameters of the generated '
+                f'`_evaluate` ({sorted(want_params)}): got parameters {sorted(params)}', where=f.fi.where)
+        body_forms.append(c)
+    R.check(bool(body_forms), q, 'checked-as-method-body', 'the syntax check compiles the code in the setting it runs in (a method body)',
+            'the syntax check compiles each piece of code on its own only, at module level: `from math import *`, `global t` or a `__future__` import in verbatim code '
+            'pass it, parse_model() returns, and build_model() then fails (BuildError) because the same text is a SyntaxError inside the body of `_evaluate(self, t, ...)`',
+            where=f.fi.where)
     for c in comp:
         a0 = c.args[0] if c.args else None
         same = False
